@@ -328,240 +328,94 @@ class Envelope:
                 for k, v in out.items():
                     outcomes[k] = v
         else:
+            from photon_weave.state.polarization import PolarizationLabel
+
             assert isinstance(self.fock.index, int)
             assert isinstance(self.polarization.index, int)
-
-            reshape_shape = [-1, -1]
-            reshape_shape[self.fock.index] = self.fock.dimensions
-            reshape_shape[self.polarization.index] = self.polarization.dimensions
+            assert isinstance(self.state, jnp.ndarray)
 
             C = Config()
+            level = self.expansion_level
+            members: List[Any] = [None, None]
+            members[self.fock.index] = self.fock
+            members[self.polarization.index] = self.polarization
+            dims = [m.dimensions for m in members]
 
-            if self.expansion_level == ExpansionLevel.Vector:
-                assert isinstance(self.state, jnp.ndarray)
+            # Only the given state is measured if measured separately
+            if separate_measurement and len(states) == 1:
+                measured = [m for m in members if m is states[0]]
+            else:
+                measured = members
+
+            # Joint populations of the two spaces
+            if level == ExpansionLevel.Vector:
                 assert self.state.shape == (self.dimensions, 1)
-                reshape_shape.append(1)
-                ps = self.state.reshape(reshape_shape)
-
-                # 1. Measure Fock Part
-                if (
-                    (separate_measurement and self.fock in states)
-                    or len(states) == 0
-                    or len(states) == 2
-                ):
-                    probabilities = jnp.sum(
-                        jnp.abs(ps) ** 2, axis=self.polarization.index
-                    ).flatten()
-                    probabilities /= jnp.sum(probabilities)
-                    key = C.random_key
-                    choice = int(
-                        jax.random.choice(
-                            key, a=jnp.arange(len(probabilities)), p=probabilities
-                        )
-                    )
-                    outcomes[self.fock] = choice
-
-                    # Construct post measurement state
-                    post_measurement = jnp.take(ps, choice, self.polarization.index)
-                    ps = jnp.take(ps, choice, axis=self.fock.index)
-
-                    einsum = "ij,kj->ikj"
-                    if self.fock.index == 0:
-                        ps = jnp.einsum(einsum, post_measurement, ps)
-                    elif self.fock.index == 1:
-                        ps = jnp.einsum(einsum, ps, post_measurement)
-
-                if (
-                    (separate_measurement and self.polarization in states)
-                    or len(states) == 0
-                    or len(states) == 2
-                ):
-                    probabilities = jnp.sum(
-                        jnp.abs(ps) ** 2, axis=self.fock.index
-                    ).flatten()
-                    probabilities /= jnp.sum(probabilities)
-                    key = C.random_key
-                    choice = int(
-                        jax.random.choice(
-                            key, a=jnp.arange(len(probabilities)), p=probabilities
-                        )
-                    )
-                    outcomes[self.polarization] = choice
-
-                    # Construct post measurement state
-                    post_measurement = jnp.take(ps, choice, self.polarization.index)
-                    ps = jnp.take(ps, choice, axis=self.polarization.index)
-                    einsum = "ij,kj->ikj"
-                    if self.fock.index == 0:
-                        ps = jnp.einsum(einsum, ps, post_measurement)
-                    else:
-                        ps = jnp.einsum(einsum, post_measurement, ps)
-
-            if self.expansion_level == ExpansionLevel.Matrix:
-                assert isinstance(self.state, jnp.ndarray)
+                ps = self.state.reshape(dims)
+                populations = jnp.abs(ps) ** 2
+            else:
                 assert self.state.shape == (self.dimensions, self.dimensions)
-                reshape_shape = [*reshape_shape, *reshape_shape]
-                transpose_pattern = [0, 2, 1, 3]
-                ps = self.state.reshape(reshape_shape).transpose(transpose_pattern)
+                ps = self.state.reshape([*dims, *dims])
+                populations = jnp.einsum("abab->ab", ps).real
 
-                # 1. Measure Fock Part
-                if (
-                    (separate_measurement and self.fock in states)
-                    or len(states) == 0
-                    or len(states) == 2
-                ):
-                    if self.fock.index == 0:
-                        subspace = jnp.einsum("bcaa->bc", ps)
-                    else:
-                        subspace = jnp.einsum("aabc->bc", ps)
-                    probabilities = jnp.diag(subspace).real
-                    probabilities /= jnp.sum(probabilities)
-                    key = C.random_key
-                    choice = int(
-                        jax.random.choice(
-                            key, a=jnp.arange(len(probabilities)), p=probabilities
-                        )
-                    )
-                    outcomes[self.fock] = choice
-
-                    # Reconstruct post measurement state
-                    indices: List[Union[slice, int]] = [slice(None)] * len(ps.shape)
-                    indices[self.fock.index] = outcomes[self.fock]
-                    indices[self.fock.index + 1] = outcomes[self.fock]
-                    ps = ps[tuple(indices)]
-
-                    post_measurement = jnp.zeros(
-                        (self.fock.dimensions, self.fock.dimensions)
-                    )
-                    post_measurement = post_measurement.at[choice, choice].set(1)
-                    if self.fock.index == 0:
-                        ps = jnp.einsum("ab,cd->abcd", post_measurement, ps)
-                    else:
-                        ps = jnp.einsum("ab,cd->abcd", ps, post_measurement)
-
-                # 2. Measure Polarization Part
-                if (
-                    (separate_measurement and self.polarization in states)
-                    or len(states) == 0
-                    or len(states) == 2
-                ):
-                    if self.polarization.index == 1:
-                        subspace = jnp.einsum("aabc->bc", ps)
-                    else:
-                        subspace = jnp.einsum("bcaa->bc", ps)
-                    probabilities = jnp.diag(subspace).real
-                    probabilities /= jnp.sum(probabilities)
-                    key = C.random_key
-                    choice = int(
-                        jax.random.choice(
-                            key, a=jnp.arange(len(probabilities)), p=probabilities
-                        )
-                    )
-                    outcomes[self.polarization] = choice
-
-                    # Reconstruct post measurement state
-                    indices = [slice(None)] * len(ps.shape)
-                    indices[self.polarization.index] = outcomes[self.polarization]
-                    indices[self.polarization.index + 1] = outcomes[self.polarization]
-                    ps = ps[tuple(indices)]
-
-                    post_measurement = jnp.zeros(
-                        (self.polarization.dimensions, self.polarization.dimensions)
-                    )
-                    post_measurement = post_measurement.at[choice, choice].set(1)
-
-                    if self.polarization.index == 0:
-                        ps = jnp.einsum("ab,cd->abcd", post_measurement, ps)
-                    else:
-                        ps = jnp.einsum("ab,cd->abcd", ps, post_measurement)
-
-            # Handle post measurement processes
-            ps = self.state.reshape(reshape_shape)
-            if self.expansion_level == ExpansionLevel.Vector:
-                if separate_measurement and len(states) == 1:
-                    if self.fock not in states:
-                        self.fock.state = jnp.take(
-                            ps, outcomes[self.polarization], self.polarization.index
-                        )
-                        self.fock.expansion_level = ExpansionLevel.Vector
-                        self.fock.index = None
-                        if destructive:
-                            self.polarization._set_measured()
-                        else:
-                            self.polarization.state = jnp.zeros((2, 1))
-                            self.polarization.state.at[
-                                1, outcomes[self.polarization]
-                            ].set(1)
-                            self.polarization.index = None
-                    if self.polarization not in states:
-                        self.polarization.state = jnp.take(
-                            ps, outcomes[self.fock], self.fock.index
-                        )
-                        self.polarization.expansion_level = ExpansionLevel.Vector
-                        self.polarization.index = None
-                        if destructive:
-                            self.fock._set_measured()
-                        else:
-                            self.fock.state = outcomes[self.fock]
-                            self.fock.expansion_level = ExpansionLevel.Label
-                            self.fock.index = None
+            # Draw the outcomes one by one, conditioned on the previous ones
+            choices: List[Optional[int]] = [None, None]
+            for m in measured:
+                axis = 0 if m is members[0] else 1
+                if choices[1 - axis] is None:
+                    probabilities = jnp.sum(populations, axis=1 - axis)
                 else:
-                    if self.fock.index == 0:
-                        self.fock.state = jnp.einsum("ijk->ik", ps)
-                    else:
-                        self.fock.state = jnp.einsum("ijk->jk", ps)
-                    self.fock.expansion_level = ExpansionLevel.Vector
-                    self.fock.index = None
+                    probabilities = jnp.take(
+                        populations, choices[1 - axis], axis=1 - axis
+                    )
+                probabilities = probabilities / jnp.sum(probabilities)
+                key = C.random_key
+                choice = int(
+                    jax.random.choice(
+                        key, a=jnp.arange(len(probabilities)), p=probabilities
+                    )
+                )
+                outcomes[m] = choice
+                choices[axis] = choice
 
-                    if self.polarization.index == 0:
-                        self.polarization.state = jnp.einsum("ijk->ik", ps)
-                    else:
-                        self.polarization.state = jnp.einsum("ijk->jk", ps)
-                    self.polarization.expansion_level = ExpansionLevel.Vector
-                    self.polarization.index = None
-                    if destructive:
-                        self._set_measured()
-                        self.polarization._set_measured()
-                        self.fock._set_measured()
-            if self.expansion_level == ExpansionLevel.Matrix:
-                if separate_measurement and len(states) == 1:
-                    if self.fock not in states:
-                        if self.fock.index == 0:
-                            self.fock.state = jnp.einsum("abcb->ac", ps)
-                        elif self.fock.index == 1:
-                            self.fock.state = jnp.einsum("abac->bc", ps)
-                        self.fock.expansion_level = ExpansionLevel.Matrix
-                        self.fock.index = None
-                        if destructive:
-                            self.polarization._set_measured()
-                    if self.polarization not in states:
-                        if self.polarization.index == 0:
-                            self.polarization.state = jnp.einsum("abcb->ac", ps)
-                        elif self.polarization.index == 1:
-                            self.polarization.state = jnp.einsum("abac->bc", ps)
-                        self.polarization.expansion_level = ExpansionLevel.Matrix
-                        self.polarization.index = None
-                        if destructive:
-                            self.fock._set_measured()
+            # The state which was not measured keeps the state conditioned
+            # on the outcome of the measured one
+            for axis, m in enumerate(members):
+                if choices[axis] is not None:
+                    continue
+                if level == ExpansionLevel.Vector:
+                    remaining = jnp.take(ps, choices[1 - axis], axis=1 - axis)
+                    remaining = remaining.reshape(-1, 1)
+                    remaining = remaining / jnp.linalg.norm(remaining)
                 else:
-                    if self.fock.index == 0:
-                        self.fock.state = jnp.einsum("ikjk->ij", ps)
+                    remaining = jnp.take(ps, choices[1 - axis], axis=1 - axis)
+                    remaining = jnp.take(remaining, choices[1 - axis], axis=2 - axis)
+                    remaining = remaining / jnp.trace(remaining)
+                m.state = remaining
+                m.index = None
+                m.expansion_level = level
+
+            # The measured states are destroyed or left in the measured basis state
+            for m in measured:
+                if destructive:
+                    m._set_measured()
+                else:
+                    if m is self.polarization:
+                        m.state = (
+                            PolarizationLabel.H
+                            if outcomes[m] == 0
+                            else PolarizationLabel.V
+                        )
                     else:
-                        self.fock.state = jnp.einsum("kikj->ij", ps)
-                    self.fock.expansion_level = ExpansionLevel.Matrix
-                    self.fock.index = None
-                    if self.polarization.index == 0:
-                        self.polarization.state = jnp.einsum("ikjk->ij", ps)
-                    else:
-                        self.polarization.state = jnp.einsum("kikj->ij", ps)
-                    self.polarization.expansion_level = ExpansionLevel.Matrix
-                    self.polarization.index = None
-                    if destructive:
-                        self._set_measured()
-                        self.fock._set_measured()
-                        self.polarization._set_measured()
-            self.polarization.contract()
-            self.fock.contract()
+                        m.state = outcomes[m]
+                    m.index = None
+                    m.expansion_level = ExpansionLevel.Label
+
+            # The envelope does not hold the state any more
+            self.state = None
+            self._expansion_level = None
+            for m in members:
+                if not m.measured:
+                    m.contract()
 
         if destructive:
             self._set_measured()
